@@ -113,6 +113,7 @@ pub fn run(args: &[String]) {
         let span = match kind { Kind::VdPStiff => rng.range(1.0, 900.0), Kind::Robertson => 10f64.powf(rng.range(-1.0, 3.0)), Kind::Blowup => rng.range(0.5, 2.0), _ => match rng.below(8) { 0 => 1e-9, 1 => 30.0, _ => rng.range(0.2, 3.0) } };
         let back = rng.chance(0.25) && !matches!(kind, Kind::VdPStiff | Kind::Robertson | Kind::Stiff);
         let x0 = if rng.chance(0.3) { rng.range(-2.0, 2.0) } else { 0.0 };
+        let x0 = if rng.chance(0.1) { x0 + [1e3, -1e4, 1e5, -3e5][rng.below(4)] * rng.range(0.5, 1.5) } else { x0 };
         let xend = if back { x0 - span } else { x0 + span };
         let rtol_s = 10f64.powf(-rng.range(2.0, 8.0));
         let vector_tol = rng.chance(0.3);
@@ -143,15 +144,18 @@ pub fn run(args: &[String]) {
         };
         // index-2 partition on a few cases (only the scaling of the error weights is exercised; the problem stays an ODE)
         let nind2 = if n >= 2 && rng.chance(0.1) { 1 } else { 0 };
+        // ... and an index-3 block behind it on a few; `nind1` is left to be inferred (the documented default) or given
+        let nind3 = if n >= 3 && rng.chance(0.4) { 1 } else { 0 };
+        let give_nind1 = rng.chance(0.3);
         let jstorage = if rng.chance(0.25) { MatrixStorage::Banded { ml: n - 1, mu: n - 1 } } else { MatrixStorage::Full };
         // directed cases: landing steps that run into Newton failures, breakdowns of the right-hand side, exactly singular
         // iteration matrices
         let mut special = Special::No;
-        let (mut kind, mut n, mut y0, mut x0, mut xend, mut rtol, mut atol, mut first, mut maxstep, mut minstep, mut mass, mut mstorage, mut nind2, mut vector_tol) =
-            (kind, n, y0, x0, xend, rtol, atol, first, maxstep, minstep, mass, mstorage, nind2, vector_tol);
+        let (mut kind, mut n, mut y0, mut x0, mut xend, mut rtol, mut atol, mut first, mut maxstep, mut minstep, mut mass, mut mstorage, mut nind2, mut nind3, mut vector_tol) =
+            (kind, n, y0, x0, xend, rtol, atol, first, maxstep, minstep, mass, mstorage, nind2, nind3, vector_tol);
         let mut scripted = true;
         match id % 15 {
-            3 => { kind = Kind::VdPStiff; x0 = 0.0; xend = [805.0, 805.5, 806.0, 806.5, 807.0, 808.0][(id / 15) % 6]; rtol = vec![1e-3; 2]; atol = vec![1e-6; 2]; first = None; maxstep = None; minstep = None; mass = None; mstorage = MatrixStorage::Identity; nind2 = 0; vector_tol = false; scripted = false; }
+            3 => { kind = Kind::VdPStiff; x0 = 0.0; xend = [805.0, 805.5, 806.0, 806.5, 807.0, 808.0][(id / 15) % 6]; rtol = vec![1e-3; 2]; atol = vec![1e-6; 2]; first = None; maxstep = None; minstep = None; mass = None; mstorage = MatrixStorage::Identity; nind2 = 0; nind3 = 0; vector_tol = false; scripted = false; }
             7 => { special = Special::Tank; x0 = 0.0; xend = 3.0; first = Some([0.01, 0.1, 1.0][(id / 15) % 3]); }
             11 => { special = Special::GrowNan; x0 = 0.0; xend = 2.0; first = Some([2.0, 0.5, 1.0][(id / 15) % 3]); }
             13 => { let h0 = [1.0, 0.25][(id / 15) % 2]; special = Special::SingReal(h0); x0 = 0.0; xend = 3.0; first = Some(h0); }
@@ -161,9 +165,20 @@ pub fn run(args: &[String]) {
         if special != Special::No {
             n = if matches!(special, Special::Tank | Special::GrowNan) { 1 } else { 2 };
             y0 = if n == 1 { vec![1.0] } else { vec![1.0, 0.5] };
-            rtol = vec![1e-3; n]; atol = vec![1e-6; n]; maxstep = None; minstep = None; mass = None; mstorage = MatrixStorage::Identity; nind2 = 0; vector_tol = false; scripted = false;
+            rtol = vec![1e-3; n]; atol = vec![1e-6; n]; maxstep = None; minstep = None; mass = None; mstorage = MatrixStorage::Identity; nind2 = 0; nind3 = 0; vector_tol = false; scripted = false;
         }
         if id % 15 == 3 { p = Prob::new(kind); p.user_jac = true; n = 2; y0 = p.y0(); }
+        // directed: an index-3 block (with or without an index-2 block before it) whose `nind1` is left to be inferred
+        let mut give_nind1 = give_nind1;
+        if id % 15 == 5 {
+            kind = if (id / 15) % 2 == 0 { Kind::Decay3 } else { Kind::Robertson };
+            p = Prob::new(kind); p.user_jac = (id / 30) % 2 == 0; n = 3; y0 = p.y0();
+            x0 = 0.0; xend = if kind == Kind::Robertson { 40.0 } else { 2.0 };
+            rtol = vec![1e-4; 3]; atol = vec![1e-7; 3]; vector_tol = false; first = None; maxstep = None; minstep = None;
+            mass = None; mstorage = MatrixStorage::Identity;
+            nind3 = 1; nind2 = (id / 15) % 3 % 2; give_nind1 = false; scripted = false;
+        }
+        let jstorage = if id % 15 == 5 { MatrixStorage::Full } else { jstorage };
         let mut rec = Recorder::new();
         let mut script = vec![];
         match if scripted { rng.below(6) } else { 5 } {
@@ -172,10 +187,11 @@ pub fn run(args: &[String]) {
             2 => { rec.script.push((0, Reply::Modify(1.0))); script.push(format!("0:M{}", hx(1.0))); let k = 1 + rng.below(6); rec.script.push((k, Reply::Modify(0.5))); script.push(format!("{}:M{}", k, hx(0.5))); }
             _ => {}
         }
-        let mut b = RADAU::builder().max_steps(nmax).scale_min(smin).scale_max(smax).newton_maxiter(maxnewton).predictive(predictive)
+        let b = RADAU::builder().max_steps(nmax).scale_min(smin).scale_max(smax).newton_maxiter(maxnewton).predictive(predictive)
             .maybe_newton_tol(ntol).maybe_first_step(first).maybe_max_step(maxstep).maybe_min_step(minstep)
             .mass_storage(mstorage.clone()).jac_storage(jstorage).dense_output(dense);
-        let solver = if nind2 > 0 { b.nind2(nind2).build() } else { b.build() };
+        let solver = b.maybe_nind1(if give_nind1 && nind2 + nind3 > 0 { Some(n - nind2 - nind3) } else { None })
+            .maybe_nind2(if nind2 > 0 { Some(nind2) } else { None }).maybe_nind3(if nind3 > 0 { Some(nind3) } else { None }).build();
         let lp = Logged { special, p: &p, mass: mass.clone(), premultiply: true, odes: RefCell::new(vec![]), jacs: RefCell::new(vec![]) };
         let (rt, at): (Tolerance, Tolerance) = if vector_tol { (Tolerance::Vector(rtol.clone()), Tolerance::Vector(atol.clone())) } else { (Tolerance::Scalar(rtol[0]), Tolerance::Scalar(atol[0])) };
         let res = std::panic::catch_unwind(std::panic::AssertUnwindSafe(|| solver.solve(&lp, x0, &y0, xend, rt, at, Some(&mut rec))));
@@ -187,9 +203,9 @@ pub fn run(args: &[String]) {
         let dense_mass: Vec<f64> = match &mstorage { MatrixStorage::Banded { ml, mu } if mass.is_some() => (0..n * n).map(|k| { let (i, j) = (k / n, k % n); if j <= i + *mu && i <= j + *ml { dense_mass[k] } else { 0.0 } }).collect(), _ => dense_mass };
         writeln!(ops, "case {}", id).unwrap();
         writeln!(out, "ok").unwrap();
-        writeln!(ops, "setup n={} x0={} xend={} rtol={} atol={} mass={} first={} maxstep={} minstep={} ntol={} nmax={} maxnewton={} smin={} smax={} pred={} nind1={} nind2={} nind3=0 dense={} script={}",
+        writeln!(ops, "setup n={} x0={} xend={} rtol={} atol={} mass={} first={} maxstep={} minstep={} ntol={} nmax={} maxnewton={} smin={} smax={} pred={} nind1={} given1={} nind2={} nind3={} dense={} script={}",
             n, hx(x0), hx(xend), hxs(&rtol), hxs(&atol), hxs(&dense_mass), o(first), o(maxstep), o(minstep), o(ntol), nmax, maxnewton, hx(smin), hx(smax), predictive as u8,
-            n - nind2, nind2, dense as u8, if script.is_empty() { "-".into() } else { script.join(",") }).unwrap();
+            n - nind2 - nind3, (give_nind1 && nind2 + nind3 > 0) as u8, nind2, nind3, dense as u8, if script.is_empty() { "-".into() } else { script.join(",") }).unwrap();
         writeln!(out, "ok").unwrap();
         for (t, y, d) in lp.odes.borrow().iter() { writeln!(ops, "ode {} {} {}", hx(*t), hxs(y), hxs(d)).unwrap(); writeln!(out, "ok").unwrap(); }
         for (t, y, m) in lp.jacs.borrow().iter() { writeln!(ops, "jac {} {} {}", hx(*t), hxs(y), hxs(m)).unwrap(); writeln!(out, "ok").unwrap(); }
